@@ -590,7 +590,11 @@ func (self *LockManager) AddLock(lock *Lock) *Lock {
 		case protocol.EXPRIED_FLAG_UNLIMITED_AOF_TIME:
 			lock.aofTime = 0xff
 		case protocol.EXPRIED_FLAG_AOF_TIME_OF_EXPRIED_PARCENT:
-			lock.aofTime = uint8(float64(lock.command.Expried) * Config.DBLockAofParcentTime)
+			if aofTime := float64(lock.command.Expried) * Config.DBLockAofParcentTime; aofTime >= 0xff {
+				lock.aofTime = 0xfe
+			} else {
+				lock.aofTime = uint8(aofTime)
+			}
 		default:
 			lock.aofTime = self.lockDb.aofTime
 		}
@@ -763,7 +767,11 @@ func (self *LockManager) UpdateLockedLock(lock *Lock, command *protocol.LockComm
 		case protocol.EXPRIED_FLAG_UNLIMITED_AOF_TIME:
 			lock.aofTime = 0xff
 		case protocol.EXPRIED_FLAG_AOF_TIME_OF_EXPRIED_PARCENT:
-			lock.aofTime = uint8(float64(command.Expried) * Config.DBLockAofParcentTime)
+			if aofTime := float64(command.Expried) * Config.DBLockAofParcentTime; aofTime >= 0xff {
+				lock.aofTime = 0xfe
+			} else {
+				lock.aofTime = uint8(aofTime)
+			}
 		default:
 			lock.aofTime = self.lockDb.aofTime
 		}
